@@ -336,6 +336,9 @@ def run(ctx, tier):
     results += legacy_fallback(ctx)
     results += header_image(ctx)
     results += pagesize_refusal(ctx)
+    import c06
+    for r in c06.open_existing(ctx, rule='C15.refusal-write-free'):
+        results.append(r)
     results += c05.serialiser_total(ctx, rule='C15.serialiser-total')
     results += c05.reader_writer_tables(ctx, rule='C15.reader-writer-tables')
     return dict(
@@ -345,5 +348,5 @@ def run(ctx, tier):
             'structs, the evaluated format constants, the ordered checksum recipes (hasher type, field order, big-endian encoding) of the current and the legacy header, and the '
             'constants of the creation image all equal format_pinned.json (taken from the pinned release); header selection tries the current format first and still reaches the '
             'legacy validation, whose conversion copies every field from its namesake and re-seals; the commit writes every header field from its namesake; a header is only used '
-            'behind a page-size comparison that refuses a mismatch; element serialiser and readers agree on the fields. NOT decided: that a file opens with identical logical contents.'),
+            'behind a page-size comparison that refuses a mismatch, and opening an existing file is write-free (so the refusal leaves the file unmodified); element serialiser and readers agree on the fields. NOT decided: that a file opens with identical logical contents.'),
         assumptions=['format_pinned.json is the format of the pinned release (generated from it once and cross-checked with layout_of)'])
